@@ -289,15 +289,16 @@ def c04(out, tier):
     if not self_validate(out, tok, prog, exe, 300 if tier == "quick" else 1500, C.seed() + 1):
         return finish_mc(out, 0, 0, 0, ["self-validation failed"])
     k = 2 if tier == "quick" else 3
-    classes = [[1] * k, [3] + [1] * (k - 1)]
-    bases = [dict(BASE, on_start=o, exact_errors=e, foreign=f, last_start_tag=l)
+    classes = [[1] * k] + ([[3] + [1] * (k - 1)] if tier == "thorough" else [])
+    bases = [dict(BASE, on_start=o, exact_errors=e)
              for o in ("Continue", "Plaintext", "Script", ("RawData", "Rcdata"), ("RawData", "Rawtext"), ("RawData", "ScriptData"))
-             for e in (False, True) for (f, l) in ((False, [97]), (True, None))]
+             for e in (False, True)]
+    bases += [dict(BASE, foreign=True, last_start_tag=None, exact_errors=e) for e in (False, True)]
     def vs(k_, cls):
         return [("chunks%s" % c, {}, c) for c in TC.compositions(k_) if len(c) == k_] + [("simd-off", {"simd": False}, None)]
     units = tok_units(TC, tok, prog, k, classes, vs, bases, kind="C04", compare=False, line_oracle=False)
     res = TC.run_units(units, mir, ent)
-    bounds = "HTML tokenizer: all %d start states x %d symbolic characters x {whole, one character per feed, SIMD off} x 6 sink answers x exact_errors x (foreign, last start tag); then end()" % (len(tok.all_states(prog)), k)
+    bounds = "HTML tokenizer: all %d start states x %d symbolic characters x {whole, one character per feed, SIMD off} x 6 sink answers x exact_errors, plus (foreign content, no last start tag); then end()" % (len(tok.all_states(prog)), k)
     npaths, obl = tok_finish(out, TC, tok, res, exe, exe_rel, "C04", True, "no panic / unreachable / failed assert / overflow / RefCell double borrow on any path; feed returns Done only with the queue empty; exactly one EOF, last; bounded step count (livelock guard)", bounds, compare=False)
     out.assumptions += ["claimed for the HTML tokenizer only; tree builders, XML, stack depth and memory exhaustion are outside this check (see level_note)"]
     return finish_mc(out, npaths, npaths, len(tok.all_states(prog)), [{"bounds": bounds}])
